@@ -89,14 +89,18 @@ def run(ctx):
     obs.sort(key=lambda o: o["n"])
     ctx.write_ndjson("obs.ndjson", obs)
     if len(obs) != len(run_cases):
-        raise vf.Inconclusive("%d observations for %d cases" % (len(obs), len(run_cases)))
+        troubled = [o for o in obs if o["problem"] or o["panic"] or any(m < 0 for m in o["writeMs"])
+                    or any(g["type"] in ("PRODUCER-BLOCKED", "NOTHING-TO-RECEIVE") for g in o["got"])]
+        if len(troubled) < 10:
+            raise vf.Inconclusive("%d observations for %d cases" % (len(obs), len(run_cases)))
+        ctx.cov["notes"].append({"harness_stopped_early_after_many_failing_runs": len(run_cases) - len(obs)})
     tr = ctx.tlc("LossyTrace", "LossyTrace.cfg", workers=1, files={"obs.ndjson": opath}, timeout=3000)
     if not any(l.startswith('"CHECKED %d"' % len(obs)) for l in tr.out.splitlines()):
         raise vf.Inconclusive("trace check did not cover all %d runs:\n%s" % (len(obs), tr.out[-3000:]))
     ctx.count(len(obs))
     ctx.cov["traces_validated_against_impl"] += len(obs)
     problems = [o for o in obs if o["problem"]]
-    if len(problems) > 5:
+    if len(problems) > 5 and not tr.cases("BAD "):
         raise vf.Inconclusive("%d runs could not be completed, e.g. %s" % (len(problems), problems[0]["problem"]))
     for b in tr.cases("BAD "):
         o = obs[b["line"] - 1]
